@@ -74,8 +74,12 @@ TReset == /\ l <= Len(TraceLog) /\ Line.ev = "reset"
           /\ l' = l + 1 /\ UNCHANGED <<viol, cover>>
 
 TPkt == /\ l <= Len(TraceLog) /\ Line.ev = "pkt"
-        /\ LET p  == AbsPkt(IF Line.p.k = "chan" THEN [Line.p EXCEPT !.reach = Line.o.conn] ELSE Line.p)
-               o  == AbsOut(Line.o)
+        /\ LET o  == AbsOut(Line.o)
+               p0 == AbsPkt(IF Line.p.k = "chan" THEN [Line.p EXCEPT !.reach = Line.o.conn] ELSE Line.p)
+               \* a cookie in another encoding of the same token (mut = "neutral", e.g. with the wire string's NUL
+               \* terminator) may be accepted or refused: its verdict is taken from the observation
+               p  == IF Line.p.k = "create" /\ Line.p.hascookie /\ Line.p.tok.mut = "neutral" /\ Tok!PaaAccept(Line.p.tok)
+                       THEN [p0 EXCEPT !.cookieGood = (o.resp = "ok")] ELSE p0
                \* whether the requested address accepts connections is a fact of the environment: taken from the attempt itself
                n  == IF nd > 1 THEN 1 ELSE nd
                bad == Violated(cfg, phase, n, p, o) \cup FieldViolated(cfg, p, Line.p, Line.o)
